@@ -331,6 +331,25 @@ def expansion_cost(tree: typing.Any, cap: int = 10**7) -> int:
     raise ValueError(kind)
 
 
+@functools.lru_cache(maxsize=100000)
+def expansion_tractable(tree: typing.Any, max_elements: int = EXPLICIT_LIMIT, exp_limit: int = 100_000, val_limit: int = 600_000) -> bool:
+    """May the implementation be asked to expand this set numerically?  (expansion + its built-in validation pass over
+    the divisors 1..64, which runs once per memoised node but shares the per-divisor residue caches)"""
+    try:
+        if len(explicit(tree)) > max_elements:
+            return False
+        if expansion_cost(tree) > exp_limit:
+            return False
+        total = 0
+        for d in range(1, 65):
+            total += modulo_cost(tree, d)
+            if total > val_limit:
+                return False
+    except TooBig:
+        return False
+    return True
+
+
 def subtrees(tree: typing.Any) -> typing.List[typing.Any]:
     out = [tree]
     kind = tree[0]
